@@ -100,8 +100,7 @@ def run(ctx):
     traces = ctx.exec_scenarios(binary, scen, "c17", shards=12, timeout=1500)
     if len(traces) != len(scen) and not any(t.get("crashed") for t in traces):
         raise Inconclusive("%d scenarios, %d traces" % (len(scen), len(traces)))
-    if any(e.get("event") == "DriverDead" for t in traces for e in t["events"]):
-        raise Inconclusive("driver could not determine the outcome of a handshake")
+    traces = ctx.drop_dead(traces)
     nev = sum(len(t["events"]) for t in traces)
     nruns = sum(1 for t in traces for e in t["events"] if e.get("event") in ("Run", "Args", "Raw"))
     for e in (t for t in traces if t["id"] in ("p0.0", "s0", "kv0")):
